@@ -32,12 +32,22 @@ pub fn permutation_check(w: &mut World, uuid: &str, t: &[(String, Option<String>
         return Ok(());
     }
     let mut rng = Rng::derive(w.cfg.seed ^ w.step as u64, crate::rng::fnv64(uuid.as_bytes()));
-    let perms = if t.len() <= 6 { 3 } else { 2 };
+    // small trees: every insertion order (at every third step); larger ones: reverse + seeded orders
+    let exhaustive = t.len() <= 5 && w.step % 3 == 0;
+    let all: Vec<Vec<usize>> = if exhaustive { all_orders(t.len()) } else { vec![] };
+    if exhaustive {
+        w.bump("probe.tree_all_orders");
+    }
+    let perms = if exhaustive { all.len() } else if t.len() <= 6 { 3 } else { 2 };
     for pi in 0..perms {
         let mut order: Vec<usize> = (0..t.len()).collect();
-        match pi {
-            0 => order.reverse(), // children before parents, typically
-            _ => rng.shuffle(&mut order),
+        if exhaustive {
+            order = all[pi].clone();
+        } else {
+            match pi {
+                0 => order.reverse(), // children before parents, typically
+                _ => rng.shuffle(&mut order),
+            }
         }
         let mut rt = RevisionTree::new();
         let mut prefix: refstore::Tree = refstore::Tree::new();
@@ -287,4 +297,25 @@ pub fn merge_pair_contract(w: &mut World, uuid: &str, a: &[String], b: &[String]
 #[cfg(feature = "real")]
 pub fn merge_pair_contract(_w: &mut World, _uuid: &str, _a: &[String], _b: &[String]) -> Res {
     Ok(())
+}
+
+fn all_orders(n: usize) -> Vec<Vec<usize>> {
+    fn rec(cur: &mut Vec<usize>, used: &mut Vec<bool>, n: usize, out: &mut Vec<Vec<usize>>) {
+        if cur.len() == n {
+            out.push(cur.clone());
+            return;
+        }
+        for i in 0..n {
+            if !used[i] {
+                used[i] = true;
+                cur.push(i);
+                rec(cur, used, n, out);
+                cur.pop();
+                used[i] = false;
+            }
+        }
+    }
+    let mut out = vec![];
+    rec(&mut vec![], &mut vec![false; n], n, &mut out);
+    out
 }
